@@ -105,3 +105,19 @@ PROPS['C17'] = dict(
                'plus an isomorphism oracle on the implementation itself. Full statement kept visible as C17_export_flatten_iso_statement.',
     level_note='Partial proof: the nested-export permutation theorem is not yet proved. Two fix: commits repaired the three defect shapes (cycles dropped, self reference recursing forever, nodes split across graphs).',
 )
+
+PROPS['C01'] = dict(
+    families=[dict(name='c01-nq', quick=3000, thorough=150000)],
+    slice=60,
+    rule='datasets of 0-6 quads over RFC 3987-generated IRIs (incl. non-ASCII, pct-encoded hosts, upper-case schemes), literals assembled from 32 lexical fragments '
+         '(controls, quote, backslash, CR LF TAB BS FF, DEL, U+0080, Latin-1, surrogate-adjacent, astral, text that looks like syntax), 9 language tags with 1-5 subtags, 12 datatypes, '
+         'blank nodes of three kinds of factory shared across positions and graphs; x format (nt/nq) x ascii x 4 label formats; non-trivial = >=2 quads',
+    trusted_base=['model/NQ.v mirrors encoding/{nquads,ntriples}/{encoder,write_iri,write_literal,decoder*}.go rune by rune; lib/Utf8.v mirrors Go utf8 encode/decode',
+                  'an independent regular-expression transcription of the N-Triples/N-Quads EBNF in the harness (grammaticality oracle)'],
+    assumptions=['labels returned by a custom blank-node labeller and language tags are written verbatim: the ASCII guarantee requires them to be ASCII (documented scope decision)'],
+    explanation='writer and decoder models compared byte for byte / statement for statement with the Go code; oracle: real encoder -> real decoder -> isomorphism, byte<128 scan, EBNF recogniser',
+    level_text='Proof: the ASCII guarantee for all datasets (C01_ascii) and the writer/scanner round-trip lemmas proved so far; the encoder and decoder models are compared with the Go code on every generated dataset, '
+               'and the end-to-end oracle (encode, decode, isomorphism, grammar, byte scan) runs on the implementation itself.',
+    level_note='RDF/JSON and the document-level round-trip theorem are in progress (see partial_theorems). Six fix: commits repaired defects in this area (ASCII range, truncated subject, language subtags, empty tag, absolute-IRI check, graph-name offsets).',
+    partial=['document-level round trip decode (encode ds) = rename ds: token-level lemmas only so far'],
+)
